@@ -42,16 +42,24 @@ class Node:
         self.used = False
 
     # ---- model -----------------------------------------------------------------------------
-    def table(self):
-        """effective table: {(tname, prio): [stack of (mid, node)]} overlay"""
+    def levels(self):
+        """{(tname, prio): {tiebreak level: (mid, node id)}}: the definitions of a signature are keyed by their
+        tiebreak level (0 = latest of a node, -1 the one before ...); parents are overlaid in mixin order, own last,
+        *level by level* - an own definition replaces the inherited one of the same level, deeper inherited levels
+        stay reachable (through call_next, or when the upper ones are unregistered)"""
         tab = {}
         for p in self.parents:
-            tab.update(p.table())
+            for sig, lv in p.levels().items():
+                tab.setdefault(sig, {}).update(lv)
         for sig in self.own_order:
             st = self.own.get(sig)
             if st:
-                tab[sig] = [(m, self.id) for m in st]
+                tab.setdefault(sig, {}).update({-(len(st) - 1 - i): (m, self.id) for i, m in enumerate(st)})
         return tab
+
+    def table(self):
+        """effective table: {(tname, prio): [stack of (mid, node), oldest first]}"""
+        return {sig: [lv[k] for k in sorted(lv)] for sig, lv in self.levels().items()}
 
     def ancestors(self):
         out = []
@@ -133,6 +141,8 @@ class Graph:
         mid, kind = ms["mid"], ms["kind"]
         if kind == "leaf":
             body = f"return ('leaf', {mid}, x, acc)"
+        elif kind == "nextleaf":     # delegates to the next method of the function it was reached through
+            body = f"return ('nx', {mid}, x, call_next(x))"
         elif kind == "nest_list":   # a rewritten call nested in a later argument of another one
             body = (f"return ['N{mid}'] + ([recurse(x[0], recurse(x[1], 0))] if len(x) >= 2 "
                     f"else [recurse(e) for e in x])")
@@ -256,13 +266,39 @@ class Graph:
         app.sort(reverse=True)
         return app[0][2]
 
+    def chain(self, n, v):
+        """method ids applicable to v on node n in delegation order: by priority, then specificity, and within one
+        signature the definitions of the node that holds it, latest first"""
+        tab = n.table()
+        app = []
+        for (tn, prio), st in tab.items():
+            if tn.startswith("type["):
+                c = self.env.cls(tn[5:-1])
+                if isinstance(v, type) and issubclass(v, c):
+                    app.append((prio, 100 + len(v.__mro__) - v.__mro__.index(c), st))
+                continue
+            c = self.env.cls(tn)
+            if isinstance(v, c):
+                app.append((prio, len(type(v).__mro__) - type(v).__mro__.index(c), st))
+        app.sort(key=lambda a: (a[0], a[1]), reverse=True)
+        return [m for _, _, st in app for m, _node in reversed(st)]
+
     def ev(self, n, v, acc=None):
         """reference interpreter: result tree of calling node n on v (second, optional argument acc)."""
         mid = self.resolve(n, v)
         if mid is None:
             raise LookupError
+        return self.ev_mid(n, mid, v, acc)
+
+    def ev_mid(self, n, mid, v, acc=None):
         ms = self.mspecs[mid]
         kind = ms["kind"]
+        if kind == "nextleaf":
+            ch = self.chain(n, v)
+            i = ch.index(mid)
+            if i + 1 >= len(ch):
+                raise LookupError       # call_next with nothing left: the whole call fails with "no method"
+            return ("nx", mid, v, self.ev_mid(n, ch[i + 1], v, None))
         if kind == "leaf":
             return ("leaf", mid, v, acc)
         if kind == "nest_list":
